@@ -2,6 +2,7 @@ package crashlib
 
 import (
 	"fmt"
+	"sync"
 	"time"
 
 	"github.com/MixinNetwork/mixin/common"
@@ -56,6 +57,7 @@ type Runner struct {
 	seeded  map[uint64]bool // absolute day -> works seeded
 	onChain map[string]bool // "tx hash|chain" -> a snapshot of that chain contains the transaction
 	Log     []string
+	logMu   sync.Mutex
 }
 
 func NewRunner(env *Env, node *kernel.Node, store *CrashStore, spec *Spec) *Runner {
@@ -65,7 +67,11 @@ func NewRunner(env *Env, node *kernel.Node, store *CrashStore, spec *Spec) *Runn
 		workRd: map[int]uint64{}, seeded: map[uint64]bool{}, onChain: map[string]bool{}}
 }
 
-func (r *Runner) logf(f string, a ...any) { r.Log = append(r.Log, fmt.Sprintf(f, a...)) }
+func (r *Runner) logf(f string, a ...any) {
+	r.logMu.Lock()
+	r.Log = append(r.Log, fmt.Sprintf(f, a...))
+	r.logMu.Unlock()
+}
 
 func (r *Runner) Run() {
 	for i := range r.spec.Steps {
@@ -247,12 +253,52 @@ func (r *Runner) sign(chain *kernel.Chain, s *common.Snapshot) bool {
 	return true
 }
 
+// prepared is a step whose transactions are admitted to the cache store and whose snapshot is built
+// and certified; what remains is handing the snapshot to the chain's finalization handler.
+type prepared struct {
+	i        int
+	st       Step
+	chainIdx int
+	id       crypto.Hash
+	s        *common.Snapshot
+}
+
 func (r *Runner) runStep(i int) {
-	st := r.spec.Steps[i]
 	prevStep := r.store.step
 	r.store.step = i
 	defer func() { r.store.step = prevStep }()
+	p := r.prepare(i)
+	if p == nil {
+		return
+	}
+	// interleaving: another chain's goroutine finalizes its snapshot(s) while
+	// this chain is between WriteSnapshot and the consensus marker write
+	if len(p.st.Inject) > 0 {
+		inj := p.st.Inject
+		r.store.Boundary = func(c *Call) {
+			if c.Name != "WriteConsensusSnapshot" {
+				return
+			}
+			r.store.Boundary = nil
+			r.host = p.chainIdx
+			for _, j := range inj {
+				r.runStep(j)
+			}
+			r.host = -1
+		}
+	}
+	r.finalize(p)
+	r.store.Boundary = nil
+}
 
+func (r *Runner) finalize(p *prepared) {
+	fin, want, err := r.node.VerifC21CosiFinalize(p.id, p.s)
+	r.logf("step %d (%s) chain %d round %d ts +%dms: finalized=%v want=%d err=%v", p.i, p.st.Kind, p.chainIdx, p.s.RoundNumber,
+		(p.s.Timestamp-r.env.Epoch)/uint64(time.Millisecond), fin, len(want), err)
+}
+
+func (r *Runner) prepare(i int) *prepared {
+	st := r.spec.Steps[i]
 	r.ts += 10 * uint64(time.Millisecond)
 	var txs []*common.VersionedTransaction
 	chainIdx := st.Chain
@@ -318,11 +364,11 @@ func (r *Runner) runStep(i int) {
 	}
 	if len(txs) == 0 {
 		r.logf("step %d (%s): no transaction built", i, st.Kind)
-		return
+		return nil
 	}
 	if chainIdx < 0 || chainIdx >= len(r.env.Chains) {
 		r.logf("step %d: bad chain %d", i, chainIdx)
-		return
+		return nil
 	}
 	if r.host >= 0 && chainIdx == r.host {
 		// interleaved work belongs to another chain's goroutine
@@ -341,7 +387,7 @@ func (r *Runner) runStep(i int) {
 	chain := r.node.BootChain(id)
 	if chain == nil {
 		r.logf("step %d: no chain %d", i, chainIdx)
-		return
+		return nil
 	}
 	s := &common.Snapshot{Version: common.SnapshotVersionCommonEncoding, NodeId: id}
 	for _, t := range txs {
@@ -350,13 +396,13 @@ func (r *Runner) runStep(i int) {
 	if st.Kind == "accept" {
 		if chain.State != nil {
 			r.logf("step %d: accept on a chain with state", i)
-			return
+			return nil
 		}
 		s.RoundNumber = 0
 	} else {
 		if chain.State == nil {
 			r.logf("step %d: chain %d has no state", i, chainIdx)
-			return
+			return nil
 		}
 		head := chain.State.CacheRound
 		newRound := st.NewRound
@@ -398,27 +444,8 @@ func (r *Runner) runStep(i int) {
 	s.Hash = s.PayloadHash()
 	if !r.sign(chain, s) {
 		r.logf("step %d: cannot sign", i)
-		return
+		return nil
 	}
 
-	// interleaving: another chain's goroutine finalizes its snapshot(s) while
-	// this chain is between WriteSnapshot and the consensus marker write
-	if len(st.Inject) > 0 {
-		inj := st.Inject
-		r.store.Boundary = func(c *Call) {
-			if c.Name != "WriteConsensusSnapshot" {
-				return
-			}
-			r.store.Boundary = nil
-			r.host = chainIdx
-			for _, j := range inj {
-				r.runStep(j)
-			}
-			r.host = -1
-		}
-	}
-	fin, want, err := r.node.VerifC21CosiFinalize(id, s)
-	r.store.Boundary = nil
-	r.logf("step %d (%s) chain %d round %d ts +%dms: finalized=%v want=%d err=%v", i, st.Kind, chainIdx, s.RoundNumber,
-		(s.Timestamp-r.env.Epoch)/uint64(time.Millisecond), fin, len(want), err)
+	return &prepared{i: i, st: st, chainIdx: chainIdx, id: id, s: s}
 }
